@@ -118,7 +118,7 @@ def do_native(s, prop, obs, tier, jobs):
             exes[o["pkg"]] = run_native.build(s, o["pkg"], log)
     for o in obs:
         to = o.get("timeout_thorough", 1500) if tier == "thorough" else o.get("timeout", 240)
-        r = run_native.run_obligation(s, exes[o["pkg"]], o["test"], tier, jobs, to, log)
+        r = run_native.run_obligation(s, exes[o["pkg"]], o["test"], tier, jobs, to, log, progress=bool(o.get("crash_is_violation")))
         rec = {"obligation": o["name"], "clause": o.get("clause", o["name"]), "backend": "native", "kind": "bounded",
                "bound": r.get("scope") or o.get("scope"), "function": o.get("fn"), "secs": r.get("secs"),
                "evaluations": r.get("evaluations", 0), "distinct_nontrivial": r.get("distinct_nontrivial", 0),
